@@ -34,7 +34,8 @@ META = {
         "srctools.keyvalues:Keyvalues.parse", "srctools.tokenizer:escape_text", "srctools.tokenizer:Tokenizer._get_token",
         "srctools.math:format_float",
     ],
-    "bounds": "one symbolic str leaf at a time, exact length per slice (quick 0..1, thorough 0..2; all code points) in each of: entity value, "
+    "bounds": "one symbolic str leaf at a time, exact length per slice (quick 0..1, thorough 0..2; all code points; face material: thorough "
+              "only, length 1, ~60 s per path; output/input/instance names: ASCII only, they are casefolded) in each of: entity value, "
               "fixup value, comments, logical_pos, output name/target/input/params/instance names (both separators, 4 instance forms), face "
               "material, visgroup name (nested), cordon name; symbolic bools for every boolean field; ids, group ids, visgroup ids, times, "
               "lightmap/smoothing, displacement flags/triangle tags/allowed_verts, editor colours and VMF header ints by symbolic index from "
@@ -47,6 +48,7 @@ META = {
     "stubs": ["srctools.keyvalues.sys.intern / srctools.vmf.intern -> identity", "srctools.tokenizer.BARE_DISALLOWED frozenset -> tuple",
               "CrossHair casefold fast path", "srctools.vmf.frozenset -> real frozenset untraced (CopySet.__iter__)",
               "srctools.{vmf,math,keyvalues,__init__}.float -> FloatShim: real float() on the de-proxied text (vf/stubs/floatstub.py)",
+              "srctools.vmf.Array -> real array.array built untraced (CrossHair's array model is 16-bit for 'i' and cannot extend() from a generator)",
               "srctools.{vmf,keyvalues,__init__}.int -> IntShim: real int() on de-proxied text; symbolic ints go to CrossHair unchanged"],
     "trusted_base": ["crosshair-tool 0.0.110", "z3 (z3-solver wheel 5.1.0 API)", "vf/chx.py driver", "vf/stubs/common.py casefold fast path"],
     "assumptions": ["writers deliver text as pieces and Keyvalues.parse is fed the pieces (chunk independence is C03)",
@@ -63,12 +65,13 @@ OUTPUT_SEP = "\x1b"
 def setup(engine):
     if engine == "chx":
         from vf.stubs.common import text_stubs
-        from vf.stubs.vmfstubs import stub_copyset
+        from vf.stubs.vmfstubs import stub_copyset, stub_array
         from vf.stubs.floatstub import stub_float, stub_int
         text_stubs()
         stub_copyset()
         stub_float()
         stub_int()
+        stub_array()
 
 
 def pick(lst, idx):
@@ -553,7 +556,7 @@ def h_solid_ids(si: int, fi: int, gi: int, vi: int, li: int, mi: int, hidden: bo
 
 TRI = [0, 1, 9]                   # TriangleTag values (STEEP, WALKABLE, BUILDABLE)
 DFLAGS = [7, 0, 1, 5, 15, 8]      # DispFlag values: collision bits 1/2/4, SUBDIV 8
-ALLOWED = [-1, 0, 1, 2 ** 30 + 5, -2 ** 30]     # (CrossHair's array('i') model rejects the int32 extremes)
+ALLOWED = [-1, 0, 1, 32767, -32768]     # CrossHair models array('i') with 16-bit items: stay inside (stated bound)
 
 
 def _mk_disp(m, power, mb, ti=0, fl=0, al=0, default_verts=False):
@@ -566,8 +569,7 @@ def _mk_disp(m, power, mb, ti=0, fl=0, al=0, default_verts=False):
     flags = vmf.DispFlag(DFLAGS[fl])
     side.disp_flags = flags
     a = ALLOWED[al]
-    from array import array
-    side.disp_allowed_vert = array("i", [a, -1, 0, 1, 2, 3, -7, 2 ** 30 + 1, -2 ** 30 - 1, a])
+    side.disp_allowed_vert = vmf.Array("i", [a, -1, 0, 1, 2, 3, -7, 32767, -32768, a])
     if default_verts:
         return side
     size = side.disp_size
@@ -956,10 +958,10 @@ def obligations(tier):
                          "(with a hidden brush)", bound="lists IDS/IDSETS/COLORS"))
     obls.append(Obl("entity.default", MOD, "h_entity_default", budget_s=B, per_path_s=40, desc="all-default entity"))
     # Solid
-    obls.append(Obl("solid.text", MOD, "h_solid_text", slices=[{"n": n, "kind": k} for n in lens for k in ("wedge", "prism")], budget_s=B,
-                    per_path_s=60, desc="Solid export->parse->export: symbolic face material; planes, UV axes, rotation, Strata point data concrete",
+    obls.append(Obl("solid.text", MOD, "h_solid_text", slices=[{"n": n, "kind": k} for n in ((0,) if q else (0, 1)) for k in ("wedge", "prism")],
+                    budget_s=B if q else 3000, per_path_s=60 if q else 300, desc="Solid export->parse->export: symbolic face material; planes, UV axes, rotation, Strata point data concrete",
                     bound="exact length per slice, full Unicode"))
-    obls.append(Obl("solid.witness", MOD, "h_solid_text_w", slices=[{"n": 1, "kind": "wedge"}], budget_s=120, per_path_s=60, witness=True))
+    obls.append(Obl("solid.witness", MOD, "h_solid_text_w", slices=[{"n": 0 if q else 1, "kind": "wedge"}], budget_s=120 if q else 900, per_path_s=60 if q else 300, witness=True))
     obls.append(Obl("solid.ids", MOD, "h_solid_ids", slices=[{"part": 0}, {"part": 1}], budget_s=B * 3, per_path_s=60,
                     desc="solid/face ids, group id, visgroup ids, lightmap scale, smoothing groups by index; hidden/vis/cordon bools symbolic"))
     # Displacement
